@@ -134,6 +134,61 @@ class Report:
                     "that path skips whatever follows it and nothing shows the property holds on it"
                     % (label, sorted({ir.show(x)[:50] for x in esc}), [x.get("ln") for x in esc]),
                     ir.loc(fn, esc[0]) if esc else ir.loc(fn))
+        # build-mode conditional compilation: a statement, arm or item that exists only in (or only outside) test / debug builds makes the
+        # test suite and the library a user links run different code; the syntax tree the rules read carries no statement-level attributes,
+        # so such a site is reported wherever it is in the crate (target_arch / feature predicates are the same for the suite and the user)
+        import re as _re
+        mode = _re.compile(r"\b(test|debug_assertions|doctest|miri)\b")
+        ncfg = 0
+        for qual, fn in self.ctx._facts.all_fns():
+            inner = [c for c in fn.get("cfg_inner") or [] if mode.search(c.get("text", ""))]
+            outer = [a for a in fn.get("attrs") or [] if isinstance(a, str) and a.replace(" ", "").startswith(("cfg(", "cfg_attr(")) and mode.search(a)
+                     and a.replace(" ", "") != "cfg(not(test))"]
+            ncfg += 1
+            if inner or outer:
+                self.ob("R-control", "%s/build-mode-cfg" % _re.sub(r"<[^>]*>", "", qual), False,
+                        "%s contains code compiled only in, or only outside, test / debug builds (%s): the existing tests and a user of the library execute different code here"
+                        % (qual, [(c.get("ln"), c.get("text")) for c in inner] + outer), ir.loc(fn))
+        # names that could mean two things: an item declared inside a function body (a local `const` / `fn` / renaming `use` shadows the
+        # module-level one the rules read), two definitions of one function (cfg-gated twins: the rules would read one of them), and an
+        # inherent method with the name of a trait method (`self.name()` and `resampler.name()` then resolve to the inherent one)
+        facts_ = self.ctx._facts
+        for qual, fn in facts_.all_fns():
+            loc_items = [x for x in ir.walk(fn.get("body") or {}) if x.get("k") == "item" and isinstance(x.get("item"), dict)
+                         and (x["item"].get("k") in ("fn", "const", "static", "macro", "macro_rules", "impl", "struct", "enum", "trait", "mod")
+                              or (x["item"].get("k") == "use" and " as " in (x["item"].get("text") or "")))]
+            if loc_items:
+                self.ob("R-control", "%s/local-item" % _re.sub(r"<[^>]*>", "", qual), False,
+                        "%s declares %s inside its body (line %s): a local item shadows the crate-level item of the same name that the rules read"
+                        % (qual, sorted({(x["item"].get("k"), x["item"].get("name") or x["item"].get("text")) for x in loc_items}), [x.get("ln") for x in loc_items]), ir.loc(fn, loc_items[0]))
+        seen_defs = {}
+        for fl in facts_.doc["files"]:
+            def scan(items, fl=fl):
+                for it in items:
+                    if it.get("k") == "fn":
+                        seen_defs.setdefault((fl["path"], None, None, it["name"]), []).append(it)
+                    elif it.get("k") == "impl":
+                        for fn in it["fns"]:
+                            seen_defs.setdefault((fl["path"], it.get("self_ty") or it.get("self_name"), it.get("trait"), fn["name"]), []).append(fn)
+                    elif it.get("k") == "mod":
+                        scan(it.get("items") or [])
+            scan(fl["items"])
+        for (path, owner, trait, name), defs in sorted(seen_defs.items(), key=lambda kv: str(kv[0])):
+            if len(defs) > 1:
+                self.ob("R-control", "%s::%s/duplicate-definition" % (owner or path.split("src/")[-1], name), False,
+                        "%d definitions of %s%s in %s (lines %s; conditional compilation?): the rules would read one of them without knowing which one is built"
+                        % (len(defs), (owner + "::") if owner else "", name, path.split("src/")[-1], [d.get("ln") for d in defs]), path.split("/repo/")[-1])
+        trait_names = {}
+        for (path, owner, trait, name), defs in seen_defs.items():
+            if owner and trait:
+                trait_names.setdefault(owner, set()).add(name)
+        for (path, owner, trait, name), defs in sorted(seen_defs.items(), key=lambda kv: str(kv[0])):
+            if owner and trait is None and name in trait_names.get(owner, ()):
+                self.ob("R-control", "%s::%s/inherent-shadows-trait-method" % (owner, name), False,
+                        "%s has an inherent method `%s` with the name of a method of a trait it implements: method-call syntax resolves to the inherent one, the rules read the trait implementation"
+                        % (owner, name), path.split("/repo/")[-1])
+        if ncfg:
+            self.ob("R-control", "build-mode-cfg/scan", True, "%d function bodies scanned for test-/debug-only conditional compilation" % ncfg, "src/")
         if n:
             self.clause("R-control", "none of the %d functions this check interprets leaves early except through an error exit (no early success return, break or continue), "
                                      "so reasoning about the fall-through path covers every successful call" % n)
